@@ -381,7 +381,7 @@ func ruleC16Pair(p *Prog, a *Anchors, r *Report) {
 			}
 			// Token and position are set on the same paths: a Token stored where Line/Column are not (because the
 			// error already has a position) pairs the token of one place with the position of another
-			_, freshErr := stripLoad(g.line.Addr.(*ssa.FieldAddr).X).(*ssa.Alloc)
+			freshErr := freshErrorValue(g.line.Addr.(*ssa.FieldAddr).X)
 			if g.tok != nil && g.tok.Block() != g.line.Block() && !freshErr {
 				post := true
 				for _, ret := range returnsOf(f) {
@@ -400,7 +400,7 @@ func ruleC16Pair(p *Prog, a *Anchors, r *Report) {
 			}
 			// completing an existing error (not one built here): the position of token T may only be given to an
 			// error that names T's source — its Filename is T.Filename afterwards, on every path
-			if _, fresh := stripLoad(g.line.Addr.(*ssa.FieldAddr).X).(*ssa.Alloc); !fresh && len(lt) > 0 {
+			if !freshErrorValue(g.line.Addr.(*ssa.FieldAddr).X) && len(lt) > 0 {
 				fkey := owner + ":position:filename"
 				okFile := false
 				if g.file != nil {
@@ -740,4 +740,25 @@ func stripLoad(v ssa.Value) ssa.Value {
 		}
 	}
 	return v
+}
+
+// freshErrorValue: the Error whose fields are stored is built here (an allocation) — and not a copy of an existing one
+// (`c := *e`, completed and returned): such a copy carries the Filename, Line … of the error it was copied from.
+func freshErrorValue(x ssa.Value) bool {
+	al, ok := stripLoad(x).(*ssa.Alloc)
+	if !ok {
+		return false
+	}
+	for _, ref := range *al.Referrers() {
+		st, ok := ref.(*ssa.Store)
+		if !ok || st.Addr != ssa.Value(al) {
+			continue
+		}
+		if u, ok := st.Val.(*ssa.UnOp); ok && u.Op == token.MUL {
+			if _, isAl := stripLoad(u.X).(*ssa.Alloc); !isAl {
+				return false
+			}
+		}
+	}
+	return true
 }
